@@ -100,6 +100,8 @@ def attribute_hygiene(prog, chk):
     arrays = _promoted_str_arrays(pta)
     pres = [a for a in arrays if set(PRESENTATION) <= set(a)]
     chk.ob(bool(pres), "A14.text-presentation", "process_text_attr", pta.where(), f"the {len(PRESENTATION)} text presentation attributes are moved from the shape to the text element", f"the moved presentation-attribute list lacks {sorted(set(PRESENTATION) - set(max(arrays, key=len) if arrays else []))}")
+    extra = sorted(set(pres[0]) - set(PRESENTATION)) if pres else []
+    chk.ob(not extra, "A14.text-presentation", "process_text_attr:only-text-properties", pta.where(), "only properties that apply to text content alone are moved from the shape to its text element", f"the attributes moved from the shape to its text element now include {extra}: these also apply to the shape itself (\"the shape itself is emitted unchanged apart from the text-specific attributes\"), so a shape with text loses its own {extra[0] if extra else ''}")
     # d-text-* classes are removed from the shape
     sw = [1 for (bb, t, c) in pta.call_sites(lambda c: c.path.endswith("<impl str>::starts_with")) if _lit(pta, t, 1) == "d-text-"]
     pc = pta.call_sites(R.path_is(EL + "::pop_class"))
